@@ -213,6 +213,22 @@ func BoundaryRunes(n *Node) []rune {
 	for _, r := range []rune{0, 0x7f, 0x80, 0xff, 0x100, 0xfffd, 0xffff, 0x10000, unicode.MaxRune} {
 		add(r)
 	}
+	// the edges of EVERY general category and of the White_Space property, whether the class names them or
+	// not: a table added to (or swapped in) the shipped class - Zs next to [ \t\r\n], Nd for N - shows there
+	tables := []*unicode.RangeTable{unicode.Properties["White_Space"]}
+	for _, t := range unicode.Categories {
+		tables = append(tables, t)
+	}
+	for _, t := range tables {
+		for _, r16 := range t.R16 {
+			add(rune(r16.Lo))
+			add(rune(r16.Hi))
+		}
+		for _, r32 := range t.R32 {
+			add(rune(r32.Lo))
+			add(rune(r32.Hi))
+		}
+	}
 	// case-fold neighbours: non-members whose lower/upper/simple-fold image is a member (and vice
 	// versa) - what a wrong ignore-case flag would confuse, e.g. U+212A KELVIN SIGN and 'k'
 	for x := rune(0); x <= 0x1FFFF; x++ {
